@@ -8,10 +8,10 @@ git checkout -q -f --detach main && git clean -fdq tests
 cp "$D/demo.rs" tests/seed_$NAME.rs
 export CARGO_TARGET_DIR=/tmp/zw-target CARGO_NET_OFFLINE=true RUST_BACKTRACE=0
 echo "--- without patch"
-timeout 3000 cargo test --offline --test seed_$NAME 2>&1 | grep -E "^test result|^error" | tail -2
+timeout 3000 cargo test --offline --test seed_$NAME 2>&1 | grep -aE "^test result|^error" | tail -2
 git apply "$D/patch.diff" || { echo "PATCH DOES NOT APPLY"; exit 1; }
 echo "--- with patch"
-timeout 3000 cargo test --offline --test seed_$NAME 2>&1 | grep -E "^test result|^error" | tail -2
+timeout 3000 cargo test --offline --test seed_$NAME 2>&1 | grep -aE "^test result|^error" | tail -2
 echo "--- module unit tests with patch ($FILTER)"
-timeout 3000 cargo test --offline --lib -- $FILTER 2>&1 | grep -E "^test result|FAILED" | tail -3
+timeout 3000 cargo test --offline --lib -- $FILTER 2>&1 | grep -aE "^test result|FAILED" | tail -3
 git checkout -q -f --detach main && git clean -fdq tests
